@@ -18,6 +18,7 @@ import Driver.SqliteConn
 import Driver.StateStore
 import Driver.Timers
 import Driver.Journal
+import Driver.Replay
 
 def main (args : List String) : IO UInt32 := do
   let stdin ← IO.getStdin
@@ -41,4 +42,5 @@ def main (args : List String) : IO UInt32 := do
   | ["statestore"] => Drv.loop stdin Drv.StateStore.step {}; return 0
   | ["timers"] => Drv.loop stdin Drv.Timers.step {}; return 0
   | ["journal"] => Drv.loop stdin Drv.Journal.step {}; return 0
+  | ["replay"] => Drv.loop stdin Drv.Replay.step {}; return 0
   | _ => IO.eprintln "usage: wfdriver <model>"; return 2
